@@ -15,7 +15,8 @@ func (e *Experiment) Execute(ctx context.Context, startGenome *genetics.Genome, 
 		return neat.ErrNEATOptionsNotFound
 	}
 
-	if e.Trials == nil {
+	if len(e.Trials) != opts.NumRuns {
+		// the holder must have exactly one slot per trial to be executed
 		e.Trials = make(Trials, opts.NumRuns)
 	}
 
